@@ -28,6 +28,7 @@ MAX_DEPTH = 4
 MODELS_ON = True
 THREAD_ALL = True
 MAX_AGE = 10
+LOG_MACROS = ("|m:debug", "|m:info", "|m:warn", "|m:error", "|m:trace", "|m:instrument", "|m:event", "|m:span", "|m:tracing", "|m:log", "|m:debug_span", "|m:info_span", "|m:warn_span", "|m:error_span", "|m:trace_span", "|m:enabled")
 PRESERVING = ("map", "map_err", "copied", "cloned", "as_ref", "as_mut", "as_deref", "as_deref_mut", "inspect", "inspect_err")
 
 _known = None
@@ -607,7 +608,8 @@ def _is_seed(blk, s):
         return True
     # every constructed Result / Option / bool constant (server crates only, see inline_program); flags of logging
     # macros (`enabled` of tracing's debug!/info!) are not program logic
-    return _SEED_ALL[0] and "|m:" not in s.get("sp", "")
+    sp = s.get("sp", "")
+    return _SEED_ALL[0] and not any(m in sp for m in LOG_MACROS)
 
 
 def _relevant(j):
